@@ -398,6 +398,24 @@ func run(r *core.Run) int {
 			cases = append(cases, c)
 		}
 	}
+	// a quarter of the multi-certificate scenarios serve every distribution point
+	// from ONE host (told apart by path): a fault on one path is not a fault of the host
+	for i, c := range cases {
+		key := i
+		if c.Group != 0 {
+			key = c.Group // the runs of one independence group share their URLs
+		}
+		if c.Sc.Len >= 3 && key%4 == 1 {
+			for pos := range c.Sc.Plans {
+				for j, k := range c.Sc.Plans[pos].Shape.CRL {
+					if k == "http" {
+						c.Sc.Plans[pos].Shape.CRL = append([]string{}, c.Sc.Plans[pos].Shape.CRL...)
+						c.Sc.Plans[pos].Shape.CRL[j] = "httph"
+					}
+				}
+			}
+		}
+	}
 	// (4) the same call once or twice more on the same validator, fetcher and cache
 	for _, c := range append([]*Case{}, cases...) {
 		if c.Cancel == "" && c.Group == 0 && c.Sc.Entry == "validate" && (c.Sc.Cache != "" || rng.IntN(8) == 0) {
